@@ -121,6 +121,7 @@ impl Ctx {
             .ok()
             .and_then(|v| v.parse::<u64>().ok())
             .unwrap_or(0);
+        let _ = std::fs::remove_dir_all(format!("{}/replays/{}", VERIF_DIR, id));
         Ctx {
             id: id.to_string(),
             tier,
@@ -382,7 +383,10 @@ impl Grid {
 
 /// Catch a panic of the subject and return its message + location
 pub fn catch<R>(f: impl FnOnce() -> R + std::panic::UnwindSafe) -> Result<R, String> {
-    match std::panic::catch_unwind(f) {
+    QUIET.with(|q| *q.borrow_mut() += 1);
+    let r = std::panic::catch_unwind(f);
+    QUIET.with(|q| *q.borrow_mut() -= 1);
+    match r {
         Ok(r) => Ok(r),
         Err(e) => {
             let msg = if let Some(s) = e.downcast_ref::<&str>() {
@@ -399,6 +403,7 @@ pub fn catch<R>(f: impl FnOnce() -> R + std::panic::UnwindSafe) -> Result<R, Str
 }
 
 thread_local! {
+    pub static QUIET: std::cell::RefCell<u32> = std::cell::RefCell::new(0);
     pub static LAST_PANIC_LOC: std::cell::RefCell<String> = std::cell::RefCell::new(String::new());
 }
 
@@ -409,6 +414,9 @@ pub fn install_panic_hook() {
             .location()
             .map(|l| format!("{}:{}", l.file(), l.line()))
             .unwrap_or_default();
+        if QUIET.with(|q| *q.borrow()) == 0 {
+            eprintln!("HARNESS PANIC (outside subject): {}", info);
+        }
         LAST_PANIC_LOC.with(|l| *l.borrow_mut() = loc);
     }));
 }
